@@ -9,6 +9,9 @@
 (*   "failPH"      unresolved placeholder (raises while converting)        *)
 (*   "failT"       value the backend cannot express (raises while converting) *)
 (*   "failC"       condition names a missing detection (raises while parsing) *)
+(*   "failU"       needs a feature the backend does not have (raises while   *)
+(*                 converting; a strict backend raises NotImplementedError,  *)
+(*                 a collecting one records the rule like any other failure) *)
 (*   "okneg"       converts; a value below a NOT is rendered inside the    *)
 (*                 backend's not-equals context (class templates swapped)  *)
 (*   "failNPH"     unresolved placeholder BELOW a NOT: raises inside that  *)
@@ -21,9 +24,9 @@
 EXTENDS Integers, Sequences, FiniteSets, SequencesExt
 
 Concat(ss) == FoldLeft(LAMBDA acc, s : acc \o s, <<>>, ss)
-Kinds == {"ok1", "ok2", "okstate", "oknest", "okneg", "failP", "failPH", "failT", "failC", "failNPH"}     \* oknest: state set by an item inside a nested pipeline
-Fails(k) == k \in {"failP", "failPH", "failT", "failC", "failNPH"}
-FailStage(k) == CASE k = "failP" -> "apply" [] k \in {"failPH", "failT", "failC"} -> "convert" [] k = "failNPH" -> "negated" [] OTHER -> "none"
+Kinds == {"ok1", "ok2", "okstate", "oknest", "okneg", "failP", "failPH", "failT", "failC", "failNPH", "failU"}     \* oknest: state set by an item inside a nested pipeline
+Fails(k) == k \in {"failP", "failPH", "failT", "failC", "failNPH", "failU"}
+FailStage(k) == CASE k = "failP" -> "apply" [] k \in {"failPH", "failT", "failC", "failU"} -> "convert" [] k = "failNPH" -> "negated" [] OTHER -> "none"
 Negates(k) == k \in {"okneg", "failNPH"}
 NQueries(k) == IF k = "ok2" THEN 2 ELSE IF Fails(k) THEN 0 ELSE 1
 StateOf(k) == IF k = "okstate" THEN "win" ELSE IF k = "oknest" THEN "nestwin" ELSE "default"
